@@ -888,6 +888,19 @@ def context_wiring(mod, bad, stats):
                 bad('WIRE-ctx-param', f'{mod.label}: {n.name}({", ".join(sorted(params))}) reads the module global '
                                       f'_ctx instead of receiving the context: when the code runs through a '
                                       f'sub-grammar it calls the base grammar\'s rules, not the overrides')
+    # a rule function runs for whichever grammar of the family is parsing: what it computes from the context it
+    # was handed must not be kept in a module-level name (a `global` store), or the first grammar to use the
+    # rule decides what all the others get
+    for n in mod.tree.body:
+        if isinstance(n, ast.FunctionDef) and n.name.startswith(('_try_', helper_prefix())):
+            for g in ast.walk(n):
+                if isinstance(g, ast.Global):
+                    stored = {x.id for x in ast.walk(n) if isinstance(x, ast.Name) and isinstance(x.ctx, ast.Store)} & set(g.names)
+                    for nm in sorted(stored):
+                        bad('WIRE-global-store', f'{mod.label}: {n.name} assigns the module-level name `{nm}`: a value built '
+                                                 f'from the context of one parse (e.g. a call object holding _ctx._try_X) is '
+                                                 f'reused by parses through other grammars of the family - overrides are '
+                                                 f'ignored or the base changes, depending on who parsed first')
     # `super.R` is lexical: it must be rooted at the module-global _super_ctx, never at the
     # dynamic context (which is the most derived grammar's)
     for fname, fn in load.functions_of(mod.tree).items():
@@ -1667,6 +1680,20 @@ def span_start_first(m, bad, stats):
         moves = [n for n in ast.walk(fn) if isinstance(n, (ast.Assign, ast.AugAssign))
                  and any(isinstance(x, ast.Name) and x.id == '_pos' and isinstance(x.ctx, ast.Store)
                          for t in (n.targets if isinstance(n, ast.Assign) else [n.target]) for x in ast.walk(t))]
+        # the instance that receives the span is built by this match (a constructor call in this function), not an
+        # object kept at module level and handed out again
+        cname = top.d['name']
+        built = [n for n in ast.walk(fn) if isinstance(n, ast.Assign) and isinstance(n.value, ast.Call)
+                 and isinstance(n.value.func, ast.Name) and n.value.func.id == cname
+                 and any(isinstance(t, ast.Name) and t.id == '_result' for t in n.targets)]
+        if not built:
+            got = [ast.unparse(n.value)[:40] for n in ast.walk(fn) if isinstance(n, ast.Assign)
+                   and any(isinstance(t, ast.Name) and t.id == '_result' for t in n.targets)
+                   and isinstance(n.value, ast.Name) and n.value.id in module_level_names(m.tree)]
+            bad('SPAN-fresh-instance', f'{m.label}: {fn.name} does not build a new {cname}(...) for the match'
+                                       + (f' (it hands out the module-level object {got[0]})' if got else '') +
+                ': the span is written onto an object shared by every match of the class, so each match overwrites '
+                'the span of the earlier ones')
         if not capture:
             bad('SPAN-start-first', f'{m.label}: {fn.name}: the start of the span ({sorted(starts)}) is not taken from '
                                     f'`_pos`')
@@ -1923,6 +1950,17 @@ def adaptor_rules(bad, stats):
             c = cs.get(cname)
             if c is None:
                 raise AnalysisError(f'{what}: anchor class {cname} vanished')
+            if cname == '_ParseFunction':
+                # the call object is a memo-key component: two invocations are the same call only if target,
+                # positional and keyword arguments all agree - the record's own (tuple) equality and hash
+                for m_ in c.body:
+                    if isinstance(m_, ast.FunctionDef) and m_.name in ('__eq__', '__hash__', '__ne__'):
+                        covers = all(f in ast.unparse(m_) for f in ('kwargs', 'args', 'func'))
+                        if not covers:
+                            bad('ARG-key-complete', f'{what}: _ParseFunction.{m_.name} does not compare all of func, args '
+                                                    f'and kwargs: two invocations that differ in what it leaves out share '
+                                                    f'one memo entry - the second receives the result computed with the '
+                                                    f'other one\'s arguments')
             call = next((m for m in c.body if isinstance(m, ast.FunctionDef) and m.name == '__call__'), None)
             if call is None:
                 bad('ADAPTOR', f'{what}: {cname} is no longer callable: the driver starts it like a parse function')
